@@ -171,6 +171,9 @@ TEMPLATES = [
     "\\x -> (g := freeze \\q -> x + q + {U}; x = 100; g(1))",
     "\\x -> (y := 1; g := freeze \\-> (y = 5; y); g() + {U})",
     "\\x -> (fs := (for (i <- [1, 2, 3]) yield freeze \\-> i * 10 + x); x = 7; (for (g <- fs) yield g()) ++ [{U}])",
+    "\\x -> (try (t := x * 2; (if (x > 0) throw \"boom\"); t) catch e -> t + 100 + {U})",
+    "\\x -> switch ([x]) case 7 or [y] -> y + {U} case _ -> 0",
+    "\\x -> switch (x) case [y, 0] or [0, y] -> y case 0 or 1 -> {U} case _ -> 2",
     "\\x -> ((if (x) (h := 5; h)); {U})",      # F30: conditionally declared name (see FAMILY)
     "\\x -> x[0:{U}] if (x is list) else {U})" if False else "\\x -> (if (x is list) x[0:{U}] else {U})",
 ]
